@@ -838,3 +838,4 @@ def run(chk):
            'the unnestings whose elements it reads', min_instances=6)
   with_order(chk, 'C09-R5')
   unnesting_order(chk, 'C09-R5')
+  K.translation_not_memoised(chk, 'C09-R5')
